@@ -336,8 +336,21 @@ func (o *C08) PreExtCall(w *World, c *ExtCall, ss *mhub2types.SignerSetTx, b *mh
 			}
 		}
 	}
-	for i, m := range e.Valset {
-		if who[m.Addr] && ((i < len(sigs) && sigs[i].V != 0) || bound[m.Addr]) {
+	// signatures travel in the order of the signer set the relayer got from the hub; while hub and contract
+	// are in step that is the contract's own set. If the hub has not yet observed the contract's latest set
+	// the relayer cannot be served (the statement's "in step" premise does not hold): no opinion.
+	if c.CurNonce != e.ValsetNonce {
+		w.St.Probe("relay-while-hub-lags-behind-contract-valset")
+		return
+	}
+	sigAt := map[[20]byte]bool{}
+	for i, m := range c.Cur {
+		if i < len(sigs) && sigs[i].V != 0 {
+			sigAt[m.Addr] = true
+		}
+	}
+	for _, m := range e.Valset {
+		if who[m.Addr] && (sigAt[m.Addr] || bound[m.Addr]) {
 			power.Add(power, new(big.Int).SetUint64(m.Power))
 		}
 	}
